@@ -65,7 +65,7 @@ Definition g_ReflectYAbout (v_m : mat) (v_y : Q) : mat :=
 Definition g_Inv (v_m : mat) : option mat :=
   let v_det := (g_Det v_m) in
   if (Qeq_bool v_det 0) then None else
-  Some (mkM ((me v_m) / v_det) ((- (mb v_m)) / v_det) ((- (((me v_m) * (mc v_m)) - ((mb v_m) * (mf v_m)))) / v_det) ((- (md v_m)) / v_det) ((ma v_m) / v_det) ((- (((- (md v_m)) * (mc v_m)) + ((ma v_m) * (mf v_m)))) / v_det)).
+  Some (mkM ((me v_m) / v_det) ((- (mb v_m)) / v_det) ((- (((me v_m) * (mc v_m)) - ((md v_m) * (mf v_m)))) / v_det) ((- (md v_m)) / v_det) ((ma v_m) / v_det) ((- (((- (md v_m)) * (mc v_m)) + ((ma v_m) * (mf v_m)))) / v_det)).
 
 Definition g_Decompose_E (v_m : mat) : Q := (((ma v_m) + (me v_m)) / 2).
 Definition g_Decompose_F (v_m : mat) : Q := (((ma v_m) - (me v_m)) / 2).
